@@ -85,6 +85,16 @@ pub fn run(out: &mut Out, tier: &str, rng: &mut Rng) {
             for b in full.iter() { ops(out, &gen::join(&[f, a, b], rng.next())); }
         }
     }
+    for s in crate::corpus::REALWORLD.iter() { ops(out, s.as_bytes()); }
+    // long identifiers: canonical text around and beyond 32 / 64 bytes with few and with many variants
+    for _ in 0..(if thorough { 30_000 } else { 3_000 }) {
+        let mut toks = vec![if rng.chance(1, 2) { gen::rand_lang8(rng) } else { gen::rand_lang(rng) }];
+        if rng.chance(2, 3) { toks.push(gen::rand_script(rng)); }
+        if rng.chance(2, 3) { toks.push(gen::rand_region(rng)); }
+        for _ in 0..rng.below(9) { toks.push(gen::rand_variant(rng)); }
+        let s = gen::render(rng, &toks);
+        ops(out, &s);
+    }
     let n = if thorough { 300_000 } else { 30_000 };
     for _ in 0..n {
         let toks = gen::wf_langid_tokens(rng);
